@@ -171,7 +171,15 @@ fn key_of(c: usize, r: usize) -> u32 {
 
 /// From<view>, From<view_mut> for every window of a parent.
 fn from_view_case<T: Elem + Clone>(ctx: &mut Ctx, pshape: (usize, usize)) {
-    for (s, e) in windows(pshape.0, pshape.1) {
+    let mut wins = windows(pshape.0, pshape.1);
+    if wins.len() > 2000 {
+        // large parents: a deterministic sample of the windows
+        let step = wins.len() / 40;
+        wins = wins.into_iter().step_by(step).collect();
+        wins.push(((0, 0), pshape));
+        wins.push(((1, 1), pshape));
+    }
+    for (s, e) in wins {
         for m in [false, true] {
             ledger_reset();
             kv_reset();
